@@ -186,6 +186,8 @@ def rule_conc(filter_names=None):
                     for ev in wan.events:
                         if ev["k"] == "store":
                             reg = ev["region"]
+                            if ev.get("via") == "core::ptr::write":
+                                continue        # judged below as worker-ptr-write
                             if reg.startswith("L") and not _escapes_from_capture(wan, reg):
                                 continue
                             o.check(_disjoint_store(crate, wan, wfx, ev), prog.pretty[wp], "worker-store",
